@@ -713,7 +713,7 @@ def run(ctx, replay=None):
                   dict(kind="reverseloguniform", lower=0.1, upper=0.9)]
         huge = huge_int_specs(rng)
         rng.shuffle(huge)
-        specs = huge[:ctx.n(14, 60)] + specs     # first: their violations are reported first
+        specs = huge[:ctx.n(10, 60)] + specs     # first: their violations are reported first
         spaces = None
 
     only = replay.get("only") if replay else None
@@ -1096,8 +1096,6 @@ def _space_cases(ctx, C, rng, cs, make_hpr, spaces):
             sp = {}
             for nm in names:
                 s = gen_spec(rng, rng.choice(kinds))
-                if "categories" in s and len(s["categories"]) == 1 and s["kind"].startswith("ordinal_nn"):
-                    s = dict(kind="ordinal_nn", categories=[1, 2, 4])
                 sp[nm] = s
             act = {nm: gen_active(rng, sp[nm]) for nm in names if rng.random() < 0.4}
             act = {k: v for k, v in act.items() if v is not None}
